@@ -30,6 +30,10 @@ def scenarios(tier: str) -> list[dict]:
                     # the same close while ANOTHER task is parked in recv() on the transport (a server closing a client whose
                     # handler awaits the next request)
                     out.append({"path": "tls-aclose", "version": version, "role": role, "std": std, "peer": peer, "fault": "none", "reader": True})
+                    # ... and while another task is blocked inside send_all() (the wrapped transport does not take its bytes: the peer stopped
+                    # reading) holding the transport's send lock, which the close needs for its close_notify
+                    if peer == "silent" or tier != "quick":
+                        out.append({"path": "tls-aclose", "version": version, "role": role, "std": std, "peer": peer, "fault": "none", "writer": True})
             # wrap: cut after k bytes of the peer's handshake stream / stalled peer
             cuts = (0, 1, 5, 6, 100) if tier == "quick" else (0, 1, 4, 5, 6, 50, 100, 200, 500, 900)
             for cut in cuts:
@@ -84,7 +88,7 @@ def run(ctx: Ctx, cfg: dict) -> dict:
         kw: dict[str, Any] = {}
         if cfg.get("fault") == "leaf-close-error":
             kw["close_error"] = OSError(errno.EIO, "close failed")
-        leaf = tlsrig.MemTransport(backend, **kw)
+        leaf = (_BlockedSendLeaf if cfg.get("writer") else tlsrig.MemTransport)(backend, **kw)
         relay.link = tlsrig.AsyncLink(relay, leaf)
         out["leaf"] = leaf
         lib_ctx = tlsrig.lib_context(version, role)
@@ -126,6 +130,23 @@ def run(ctx: Ctx, cfg: dict) -> dict:
         if cfg.get("fault") == "leaf-send-error":
             leaf.send_error = BrokenPipeError(errno.EPIPE, "broken pipe")
 
+        wtask = None
+        if cfg.get("writer"):
+            leaf.block_sends = asyncio.Event()
+
+            async def blocked_writer() -> None:
+                try:
+                    await tls.send_all(b"w" * 100)
+                    out["writer"] = ("returned",)
+                except asyncio.CancelledError:
+                    out["writer"] = ("cancelled",)
+                    raise
+                except Exception as exc:  # noqa: BLE001
+                    out["writer"] = ("raised", type(exc).__name__)
+
+            wtask = loop.create_task(blocked_writer())
+            for _ in range(3):
+                await asyncio.sleep(0)
         rtask = None
         if cfg.get("reader"):
             async def parked_reader() -> None:
@@ -162,6 +183,14 @@ def run(ctx: Ctx, cfg: dict) -> dict:
                 st["second"].cancel()
         for _ in range(3):
             await asyncio.sleep(0)
+        if wtask is not None:
+            for _ in range(5):
+                if wtask.done():
+                    break
+                await asyncio.sleep(0)
+            out["writer_released"] = wtask.done()
+            if not wtask.done():
+                wtask.cancel()
         out["leaf_closed"] = leaf.is_closing()
         out["is_closing"] = tls.is_closing()
         t0 = world.clock
@@ -196,6 +225,22 @@ def run(ctx: Ctx, cfg: dict) -> dict:
     return out
 
 
+class _BlockedSendLeaf(tlsrig.MemTransport):
+    """send_all() blocks (the peer stopped reading) until the transport is closed, then fails like a closed transport."""
+
+    block_sends: Any = None
+
+    async def send_all(self, data: Any) -> None:
+        if self.block_sends is not None and not self._closing:
+            await self.block_sends.wait()
+        await super().send_all(data)
+
+    async def aclose(self) -> None:
+        if self.block_sends is not None:
+            self.block_sends.set()
+        await super().aclose()
+
+
 class _HoldPeerOutput:
     """The peer never answers: everything it would send is held back (stalled handshake)."""
 
@@ -209,6 +254,8 @@ def oracle(cfg: dict, obs: dict) -> str | None:
     if obs["status"] != "ok":
         return "unexpected-exception"
     r = obs.get("result", "")
+    if obs.get("writer_released") is False:
+        return "blocked-writer-not-released-by-the-close"
     if cfg["path"] == "tls-wrap":
         if r != "returned" and not obs.get("leaf_closed"):
             return "failed-or-cancelled-handshake-leaves-wrapped-transport-open"
@@ -231,7 +278,8 @@ def oracle(cfg: dict, obs: dict) -> str | None:
         return "cancelled-without-cancel-request"
     # "closing the transport sends a close notification" (standard-compatible mode): an undisturbed close must have put it
     # on the wire - also when another task is parked in recv()
-    if cfg.get("std") and r == "returned" and not obs["cancel_applied"] and cfg.get("fault") == "none" and not obs.get("second_started"):
+    # (not with a blocked writer: the wrapped transport takes no bytes at all, the close can only give up after its shutdown timeout)
+    if cfg.get("std") and r == "returned" and not obs["cancel_applied"] and cfg.get("fault") == "none" and not obs.get("second_started") and not cfg.get("writer"):
         if not obs.get("peer_saw_close_notify"):
             return "close-did-not-send-close_notify"
     if cfg.get("reader") and obs.get("reader_done") is False:
